@@ -28,7 +28,7 @@ func init() {
 			{Name: "S-DEDUP/boundary", Weight: 1, Run: func(e *Env) { c05Run(e, false) }},
 			{Name: "S-DEDUP/concurrent", Weight: 1, Run: func(e *Env) { c05Run(e, true) }},
 		},
-		Quick:    50000,
+		Quick:    150000,
 		Thorough: 3000000,
 		Assume: []string{
 			"a copy arriving exactly 247 s after the first is accepted as either duplicate or fresh (the statement is silent on equality)",
